@@ -705,6 +705,10 @@ func main() {
 	}
 	sb.WriteString("]\n\n")
 	sb.WriteString("\nend Ebu.Generated\n")
+	if err := emitConsts(*repo, *out); err != nil {
+		fmt.Fprintln(os.Stderr, err)
+		os.Exit(1)
+	}
 	if err := emitSQLFacts(*repo, *out); err != nil {
 		fmt.Fprintln(os.Stderr, err)
 		os.Exit(1)
@@ -741,6 +745,105 @@ func constInt(path, name string) int {
 		}
 	}
 	return 0
+}
+
+// ---- constants the models hard-code (C10, C11) ----
+
+// emitConsts extracts: the Sprintf verb MemoryStore.Append formats offsets with, the default
+// batch size of Replay, the OffsetOldest / OffsetNewest literals, the base FormatInt/ParseInt use in the sqlite store.
+func emitConsts(repo, out string) error {
+	fset := token.NewFileSet()
+	f, err := parser.ParseFile(fset, filepath.Join(repo, "persist.go"), nil, 0)
+	if err != nil {
+		return err
+	}
+	memFmt, defBatch, oldest, newest := "", -1, "?", "?"
+	for _, d := range f.Decls {
+		switch x := d.(type) {
+		case *ast.GenDecl:
+			if x.Tok == token.CONST {
+				for _, sp := range x.Specs {
+					vs := sp.(*ast.ValueSpec)
+					for i, n := range vs.Names {
+						if i < len(vs.Values) {
+							if bl, ok := vs.Values[i].(*ast.BasicLit); ok && bl.Kind == token.STRING {
+								v, _ := strconv.Unquote(bl.Value)
+								if n.Name == "OffsetOldest" {
+									oldest = v
+								}
+								if n.Name == "OffsetNewest" {
+									newest = v
+								}
+							}
+						}
+					}
+				}
+			}
+		case *ast.FuncDecl:
+			if x.Body == nil {
+				continue
+			}
+			name := x.Name.Name
+			ast.Inspect(x.Body, func(n ast.Node) bool {
+				switch y := n.(type) {
+				case *ast.CallExpr:
+					if sel, ok := y.Fun.(*ast.SelectorExpr); ok && sel.Sel.Name == "Sprintf" && name == "Append" && len(y.Args) > 0 {
+						if bl, ok := y.Args[0].(*ast.BasicLit); ok {
+							memFmt, _ = strconv.Unquote(bl.Value)
+						}
+					}
+				case *ast.AssignStmt:
+					if name == "Replay" && len(y.Lhs) == 1 && len(y.Rhs) == 1 {
+						if id, ok := y.Lhs[0].(*ast.Ident); ok && id.Name == "batchSize" {
+							if bl, ok := y.Rhs[0].(*ast.BasicLit); ok && bl.Kind == token.INT {
+								defBatch, _ = strconv.Atoi(bl.Value)
+							}
+						}
+					}
+				}
+				return true
+			})
+		}
+	}
+	width, padded := 0, false
+	if strings.HasPrefix(memFmt, "%0") && strings.HasSuffix(memFmt, "d") {
+		padded = true
+		width, _ = strconv.Atoi(memFmt[2 : len(memFmt)-1])
+	}
+	// sqlite: base of FormatInt / ParseInt
+	fs, err := parser.ParseFile(fset, filepath.Join(repo, "stores/sqlite/store.go"), nil, 0)
+	if err != nil {
+		return err
+	}
+	fmtBase, parseBase, parseBits := 0, 0, 0
+	ast.Inspect(fs, func(n ast.Node) bool {
+		if c, ok := n.(*ast.CallExpr); ok {
+			if sel, ok := c.Fun.(*ast.SelectorExpr); ok {
+				lit := func(e ast.Expr) int {
+					if bl, ok := e.(*ast.BasicLit); ok {
+						v, _ := strconv.Atoi(bl.Value)
+						return v
+					}
+					return 0
+				}
+				if sel.Sel.Name == "FormatInt" && len(c.Args) == 2 {
+					fmtBase = lit(c.Args[1])
+				}
+				if sel.Sel.Name == "ParseInt" && len(c.Args) == 3 {
+					parseBase, parseBits = lit(c.Args[1]), lit(c.Args[2])
+				}
+			}
+		}
+		return true
+	})
+	var sb strings.Builder
+	sb.WriteString("/- GENERATED by /verif/go/extract; do not edit. Constants of the Go source that the models hard-code. -/\nnamespace Ebu.Generated.Consts\n\n")
+	sb.WriteString(fmt.Sprintf("/-- `fmt.Sprintf(%s, …)` in MemoryStore.Append -/\ndef memOffsetFormat : String := %s\ndef memOffsetWidth : Nat := %d\ndef memOffsetZeroPadded : Bool := %v\n\n", strconv.Quote(memFmt), strconv.Quote(memFmt), width, padded))
+	sb.WriteString(fmt.Sprintf("/-- default `batchSize` of Replay when the configured one is <= 0 -/\ndef replayDefaultBatch : Int := %d\n\n", defBatch))
+	sb.WriteString(fmt.Sprintf("def offsetOldest : String := %s\ndef offsetNewest : String := %s\n\n", strconv.Quote(oldest), strconv.Quote(newest)))
+	sb.WriteString(fmt.Sprintf("/-- sqlite: strconv.FormatInt(position, base) / strconv.ParseInt(offset, base, bits) -/\ndef sqliteFormatBase : Nat := %d\ndef sqliteParseBase : Nat := %d\ndef sqliteParseBits : Nat := %d\n", fmtBase, parseBase, parseBits))
+	sb.WriteString("\nend Ebu.Generated.Consts\n")
+	return os.WriteFile(filepath.Join(out, "Consts.lean"), []byte(sb.String()), 0o644)
 }
 
 // ---- SQL facts of the SQLite store (C14) ----
